@@ -13,6 +13,9 @@
    T <flow>:<payload>:<o> ...   TCP segments (flow number, payload, recorded parser outcome as in R) through ONE TLS
         analyzer instance (process_ipv4_packet + flow table) -> RET <S|-> per segment; TP: the same, the harness also
         sends them through a one-worker TLS WorkerPool (direct oracle)
+   J <q|s> <hex ASCII bytes> <s|n|e>   Http1Parser::parse_request (q) / parse_response (s), also through Http1Processor and
+        parse_http1_request/_response; the last field is the recorded verdict of the real parser (whether the start-line and
+        header parsers accept the head); MODEL = head layout of Model/TotalHttp1.v -> RET N (Ok(None)) | RET S (Ok(Some)) | RET E (Err)
    K <chunk> <chunk> ...   Http2FingerprintExtractor::add_bytes per chunk -> RET <N|S> per chunk
    F <hex>     Http2Parser::parse_frames_with_offset -> RET n=<consumed> <type>,<flags>,<stream>,<len>[=<payload summary>] ...
    S <hex>     parse_settings_payload / parse_window_update_payload / parse_priority_payload(7, .)
@@ -26,7 +29,7 @@
 From Coq Require Import List NArith Bool.
 From Coq Require Import Strings.Byte.
 From HN Require Import Base.Bytes Model.TotalBase Model.TotalTcpOpt Model.TotalMisc Model.TotalReader
-  Model.TotalH2 Model.TotalRaw Model.TotalLink Model.TotalTlsFlow Spec.TotalSpec.
+  Model.TotalH2 Model.TotalRaw Model.TotalLink Model.TotalTlsFlow Model.TotalHttp1 Spec.TotalSpec.
 Import ListNotations.
 Open Scope N_scope.
 
@@ -112,6 +115,19 @@ Definition run_T (ts : list bytes) : bytes :=
   | _ :: _, Some segs => finish (rmap show_tls_run (tls_run [] segs))
   | _, _ => bad end.
 
+
+Definition run_J (ts : list bytes) : bytes :=
+  match ts with
+  | [k; d; o] =>
+      match read_hexd d with
+      | Some b =>
+          if forallb (fun x => b2n x <? 128) b && (bytes_eqb k (bs "q") || bytes_eqb k (bs "s"))
+             && (bytes_eqb o (bs "s") || bytes_eqb o (bs "n") || bytes_eqb o (bs "e")) then
+            finish (rmap show_h1res (parse_head (bytes_eqb o (bs "s")) b))
+          else bad
+      | None => bad end
+  | _ => bad end.
+
 Definition run_hex1 (f : bytes -> R bytes) (ts : list bytes) : bytes :=
   match ts with
   | [d] => match read_hexd d with Some b => finish (f b) | None => bad end
@@ -125,6 +141,7 @@ Definition run_line (l : bytes) : bytes :=
       else if bytes_eqb k (bs "P6") then run_P6 ts
       else if bytes_eqb k (bs "R") then run_R ts
       else if bytes_eqb k (bs "K") then run_K ts
+      else if bytes_eqb k (bs "J") then run_J ts
       else if bytes_eqb k (bs "T") || bytes_eqb k (bs "TP") then run_T ts
       else if bytes_eqb k (bs "F") then run_hex1 run_frames ts
       else if bytes_eqb k (bs "S") then run_hex1 run_payloads ts
